@@ -10,6 +10,7 @@ import (
 	"go/ast"
 	"go/constant"
 	"go/token"
+	"path/filepath"
 	"strings"
 )
 
@@ -145,12 +146,25 @@ func init() {
 		}
 		fmt.Fprintf(b, "/-- FromCode upper-cases the requested letter first -/\ndef fromCodeUppercases : Bool := %v\n", toUpper)
 
-		// Base85 substitution pairs, from Encode (`if b == X { dst[k] = Y }`) and Decode
+		// Base85 substitution pairs of Encode and Decode: the byte map the element loop computes (see substMap)
 		f85 := files["base85.go"]
-		fmt.Fprintf(b, "/-- base85.go Encode: (ascii85 character, replacement) in source order -/\ndef b85EncSubst : List (Nat × Nat) := %s\n",
-			leanPairs(substPairs(findFunc(f85, "Base85Encoder", "Encode"), "Base85Encoder.Encode")))
-		fmt.Fprintf(b, "/-- base85.go Decode: (replacement, ascii85 character) in source order -/\ndef b85DecSubst : List (Nat × Nat) := %s\n",
-			leanPairs(substPairs(findFunc(f85, "Base85Encoder", "Decode"), "Base85Encoder.Decode")))
+		var pkgFiles []*ast.File
+		if names, _ := filepath.Glob(filepath.Join(repo, dir, "*.go")); true {
+			for _, n := range names {
+				if strings.HasSuffix(n, "_test.go") {
+					continue
+				}
+				if f, ok := files[filepath.Base(n)]; ok {
+					pkgFiles = append(pkgFiles, f)
+				} else {
+					pkgFiles = append(pkgFiles, parse(dir+filepath.Base(n)))
+				}
+			}
+		}
+		fmt.Fprintf(b, "/-- base85.go Encode: (ascii85 character, replacement) for every character Encode replaces, ascending -/\ndef b85EncSubst : List (Nat × Nat) := %s\n",
+			leanPairs(substMap(pkgFiles, findFunc(f85, "Base85Encoder", "Encode"), "Base85Encoder.Encode")))
+		fmt.Fprintf(b, "/-- base85.go Decode: (replacement, ascii85 character) for every character Decode maps back, ascending -/\ndef b85DecSubst : List (Nat × Nat) := %s\n",
+			leanPairs(substMap(pkgFiles, findFunc(f85, "Base85Encoder", "Decode"), "Base85Encoder.Decode")))
 
 		// shapes
 		encRet := "?"
@@ -285,50 +299,533 @@ func lenMultiplier(e ast.Expr, name string) int64 {
 	return -1
 }
 
-// substPairs collects `if b == 'X' { arr[k] = 'Y' }` chains of the first range loop of fd
-func substPairs(fd *ast.FuncDecl, where string) [][2]int64 {
-	var pairs [][2]int64
-	if fd == nil {
+// substMap establishes the byte substitution a codec method applies to every element of a buffer:
+// the first loop of fd (or, when fd has none, of an unexported same-package function it calls, two
+// levels deep) that stores into the element it visits is *evaluated* for each of the 256 byte
+// values (c08interp below: if/else chains, switch, early returns, local variables, named constants,
+// conversions, and calls into same-package helpers are all followed), and the result is the list of
+// (c, f(c)) with f(c) != c in ascending order of c.  It does not matter whether the mapping is
+// written as an if/else chain in the loop, a switch, or a helper function called from the loop.
+func substMap(pkg []*ast.File, fd *ast.FuncDecl, where string) [][2]int64 {
+	if fd == nil || fd.Body == nil {
 		fail("%s not found", where)
 		return nil
 	}
-	var walkIf func(is *ast.IfStmt)
-	walkIf = func(is *ast.IfStmt) {
-		be, ok := is.Cond.(*ast.BinaryExpr)
-		if ok && be.Op == token.EQL && len(is.Body.List) == 1 {
-			if as, ok := is.Body.List[0].(*ast.AssignStmt); ok && len(as.Rhs) == 1 {
-				a, c := evalExpr(be.Y, env{}), evalExpr(as.Rhs[0], env{})
-				if a != nil && c != nil {
-					x, _ := constant.Int64Val(constant.ToInt(a))
-					y, _ := constant.Int64Val(constant.ToInt(c))
-					pairs = append(pairs, [2]int64{x, y})
+	in := &c08interp{pkg: pkg, consts: env{}}
+	for _, f := range pkg {
+		fileConsts(f, in.consts)
+	}
+	// candidate bodies: fd itself, then the same-package functions it calls (breadth first, depth 2)
+	bodies := []*ast.FuncDecl{fd}
+	seen := map[*ast.FuncDecl]bool{fd: true}
+	for lo, depth := 0, 0; depth < 2; depth++ {
+		hi := len(bodies)
+		for _, b := range bodies[lo:hi] {
+			ast.Inspect(b.Body, func(n ast.Node) bool {
+				if ce, ok := n.(*ast.CallExpr); ok {
+					if h := in.helper(ce.Fun); h != nil && !seen[h] {
+						seen[h] = true
+						bodies = append(bodies, h)
+					}
+				}
+				return true
+			})
+		}
+		lo = hi
+	}
+	why := "no loop that stores into the element it visits"
+	for _, b := range bodies {
+		var loops []ast.Stmt
+		ast.Inspect(b.Body, func(n ast.Node) bool {
+			switch n.(type) {
+			case *ast.RangeStmt, *ast.ForStmt:
+				loops = append(loops, n.(ast.Stmt))
+			}
+			return true
+		})
+		for _, lp := range loops {
+			lc := c08loopOf(lp)
+			if lc == nil {
+				continue
+			}
+			var pairs [][2]int64
+			ok, stores := true, false
+			for c := int64(0); c < 256 && ok; c++ {
+				fr := &c08frame{vars: env{}, loop: lc, elem: constant.MakeInt64(c)}
+				if lc.val != "" {
+					fr.vars[lc.val] = fr.elem
+				}
+				in.err = ""
+				in.block(lc.body.List, fr)
+				if fr.brk || fr.ret != nil {
+					in.bad("the loop is left before all elements are visited")
+				}
+				if in.err != "" {
+					ok = false
+					why = in.err
+					break
+				}
+				stores = stores || fr.stored
+				y, exact := constant.Int64Val(constant.ToInt(fr.elem))
+				if !exact {
+					ok = false
+					why = "stored value is not an integer"
+					break
+				}
+				if y &= 0xff; y != c {
+					pairs = append(pairs, [2]int64{c, y})
 				}
 			}
-		}
-		if e, ok := is.Else.(*ast.IfStmt); ok {
-			walkIf(e)
+			if ok && stores {
+				if len(pairs) == 0 {
+					fail("%s: the element loop stores every byte back unchanged", where)
+				}
+				return pairs
+			}
 		}
 	}
-	done := false
-	ast.Inspect(fd, func(n ast.Node) bool {
-		if done {
-			return false
-		}
-		if rs, ok := n.(*ast.RangeStmt); ok {
-			for _, st := range rs.Body.List {
-				if is, ok := st.(*ast.IfStmt); ok {
-					walkIf(is)
+	fail("%s: substitution chain not found (%s)", where, why)
+	return nil
+}
+
+// computedBytes evaluates a byte slice a function builds as `name := make([]byte, N)` followed by a
+// loop over name that stores name[k] for every position k (same evaluator as substMap; the stored
+// value may depend on k and be computed in same-package helpers).  Used by x_c11pat.go for
+// Base85Encoder.TestPatterns.
+func computedBytes(pkg []*ast.File, fd *ast.FuncDecl, name string) ([]byte, string) {
+	in := &c08interp{pkg: pkg, consts: env{}}
+	for _, f := range pkg {
+		fileConsts(f, in.consts)
+	}
+	n := int64(-1)
+	var lc *c08loop
+	ast.Inspect(fd.Body, func(nd ast.Node) bool {
+		switch x := nd.(type) {
+		case *ast.AssignStmt:
+			if n < 0 && len(x.Lhs) == 1 && len(x.Rhs) == 1 && exprString(x.Lhs[0]) == name {
+				if ce, ok := x.Rhs[0].(*ast.CallExpr); ok && exprString(ce.Fun) == "make" && len(ce.Args) == 2 {
+					if v := in.expr(ce.Args[1], &c08frame{vars: env{}}); v != nil {
+						if i, ok := constant.Int64Val(constant.ToInt(v)); ok && i >= 0 && i <= 1<<16 {
+							n = i
+						}
+					}
 				}
 			}
-			done = true
-			return false
+		case *ast.RangeStmt:
+			if l := c08loopOf(x); lc == nil && l != nil && l.arr == name {
+				lc = l
+			}
+		case *ast.ForStmt:
+			if l := c08loopOf(x); lc == nil && l != nil && n >= 0 {
+				// for k := 0; k < len(name); k++ — accepted when init is 0, cond is k < len(name) or k < N, post is k++
+				as := x.Init.(*ast.AssignStmt)
+				be, okc := x.Cond.(*ast.BinaryExpr)
+				inc, okp := x.Post.(*ast.IncDecStmt)
+				fr := &c08frame{vars: env{}}
+				z := in.expr(as.Rhs[0], fr)
+				if okc && okp && inc.Tok == token.INC && exprString(inc.X) == l.key && be.Op == token.LSS && exprString(be.X) == l.key &&
+					z != nil && constant.Compare(z, token.EQL, constant.MakeInt64(0)) {
+					bound := in.expr(be.Y, fr)
+					if ce, ok := be.Y.(*ast.CallExpr); ok && exprString(ce.Fun) == "len" && len(ce.Args) == 1 && exprString(ce.Args[0]) == name {
+						bound = constant.MakeInt64(n)
+					}
+					if bound != nil && constant.Compare(bound, token.EQL, constant.MakeInt64(n)) {
+						l.arr = name
+						lc = l
+					}
+				}
+			}
 		}
 		return true
 	})
-	if len(pairs) == 0 {
-		fail("%s: substitution chain not found", where)
+	if n < 0 || lc == nil {
+		return nil, "no `" + name + " := make([]byte, N)` followed by a loop over all of " + name
 	}
-	return pairs
+	buf := make([]byte, n)
+	for k := int64(0); k < n; k++ {
+		fr := &c08frame{vars: env{}, loop: lc, elem: constant.MakeInt64(0), keyVal: constant.MakeInt64(k)}
+		if lc.val != "" {
+			fr.vars[lc.val] = fr.elem
+		}
+		in.err = ""
+		in.block(lc.body.List, fr)
+		if fr.brk || fr.ret != nil {
+			in.bad("the loop is left before all elements are visited")
+		}
+		if in.err != "" {
+			return nil, in.err
+		}
+		y, ok := constant.Int64Val(constant.ToInt(fr.elem))
+		if !ok {
+			return nil, "stored value is not an integer"
+		}
+		buf[k] = byte(y)
+	}
+	return buf, ""
+}
+
+// c08loop: `for K, V := range A`, `for K := range A` or `for K := ...; ...; ... {}`; the element is A[K]
+type c08loop struct {
+	arr, key, val string // arr == "" for a 3-clause loop: any X[K] is the element
+	body          *ast.BlockStmt
+}
+
+func c08loopOf(st ast.Stmt) *c08loop {
+	switch x := st.(type) {
+	case *ast.RangeStmt:
+		k, ok := x.Key.(*ast.Ident)
+		if !ok || k.Name == "_" {
+			return nil
+		}
+		lc := &c08loop{arr: exprString(x.X), key: k.Name, body: x.Body}
+		if v, ok := x.Value.(*ast.Ident); ok && v.Name != "_" {
+			lc.val = v.Name
+		}
+		return lc
+	case *ast.ForStmt:
+		if as, ok := x.Init.(*ast.AssignStmt); ok && len(as.Lhs) == 1 {
+			if k, ok := as.Lhs[0].(*ast.Ident); ok {
+				return &c08loop{key: k.Name, body: x.Body}
+			}
+		}
+	}
+	return nil
+}
+
+type c08frame struct {
+	vars   env
+	loop   *c08loop       // nil inside a helper function
+	elem   constant.Value // current value of the visited element
+	keyVal constant.Value // the position, when the caller fixes it (computedBytes); nil = must not matter
+	stored bool
+	ret    constant.Value
+	done   bool // a return / continue / break was executed
+	brk    bool // ... and it was a break
+}
+
+type c08interp struct {
+	pkg    []*ast.File
+	consts env
+	err    string
+	depth  int
+}
+
+func (in *c08interp) bad(format string, a ...interface{}) {
+	if in.err == "" {
+		in.err = fmt.Sprintf(format, a...)
+	}
+}
+
+// helper resolves a call target to a plain (receiver-less) function declared in the same package
+func (in *c08interp) helper(fun ast.Expr) *ast.FuncDecl {
+	id, ok := fun.(*ast.Ident)
+	if !ok {
+		return nil
+	}
+	for _, f := range in.pkg {
+		if fd := findFunc(f, "", id.Name); fd != nil && fd.Body != nil {
+			return fd
+		}
+	}
+	return nil
+}
+
+func (fr *c08frame) isElem(e ast.Expr) bool {
+	ix, ok := e.(*ast.IndexExpr)
+	if !ok || fr.loop == nil || exprString(ix.Index) != fr.loop.key {
+		return false
+	}
+	return fr.loop.arr == "" || exprString(ix.X) == fr.loop.arr
+}
+
+func (in *c08interp) block(list []ast.Stmt, fr *c08frame) {
+	for _, st := range list {
+		if fr.done || in.err != "" {
+			return
+		}
+		in.stmt(st, fr)
+	}
+}
+
+func (in *c08interp) stmt(st ast.Stmt, fr *c08frame) {
+	switch x := st.(type) {
+	case *ast.BlockStmt:
+		in.block(x.List, fr)
+	case *ast.EmptyStmt, *ast.ExprStmt, *ast.DeclStmt:
+		// no effect on the element (a call for its side effect, e.g. logging, is not followed)
+	case *ast.IfStmt:
+		if x.Init != nil {
+			in.stmt(x.Init, fr)
+		}
+		c := in.expr(x.Cond, fr)
+		if c == nil || c.Kind() != constant.Bool {
+			in.bad("condition %s is not decidable from the element value", nodeString(x.Cond))
+			return
+		}
+		if constant.BoolVal(c) {
+			in.block(x.Body.List, fr)
+		} else if x.Else != nil {
+			in.stmt(x.Else, fr)
+		}
+	case *ast.SwitchStmt:
+		if x.Init != nil {
+			in.stmt(x.Init, fr)
+		}
+		var tag constant.Value = constant.MakeBool(true)
+		if x.Tag != nil {
+			if tag = in.expr(x.Tag, fr); tag == nil {
+				in.bad("switch tag %s is not decidable from the element value", nodeString(x.Tag))
+				return
+			}
+		}
+		var taken, deflt *ast.CaseClause
+		for _, cs := range x.Body.List {
+			cc := cs.(*ast.CaseClause)
+			if cc.List == nil {
+				deflt = cc
+			}
+			for _, e := range cc.List {
+				v := in.expr(e, fr)
+				if v == nil || (v.Kind() == constant.Bool) != (tag.Kind() == constant.Bool) {
+					in.bad("case %s is not decidable from the element value", nodeString(e))
+					return
+				}
+				if taken == nil && constant.Compare(tag, token.EQL, v) {
+					taken = cc
+				}
+			}
+		}
+		if taken == nil {
+			taken = deflt
+		}
+		if taken != nil {
+			for _, s := range taken.Body {
+				if b, ok := s.(*ast.BranchStmt); ok && b.Tok == token.FALLTHROUGH {
+					in.bad("fallthrough is not followed")
+					return
+				}
+			}
+			in.block(taken.Body, fr)
+			if fr.brk { // `break` inside a switch leaves the switch only
+				fr.brk, fr.done = false, false
+			}
+		}
+	case *ast.AssignStmt:
+		if len(x.Lhs) != 1 || len(x.Rhs) != 1 {
+			in.bad("multi-value assignment in the element loop")
+			return
+		}
+		var v constant.Value
+		rhs := in.expr(x.Rhs[0], fr)
+		if x.Tok != token.ASSIGN && x.Tok != token.DEFINE {
+			// op-assignment: A op= e
+			ops := map[token.Token]token.Token{token.ADD_ASSIGN: token.ADD, token.SUB_ASSIGN: token.SUB, token.OR_ASSIGN: token.OR,
+				token.AND_ASSIGN: token.AND, token.XOR_ASSIGN: token.XOR}
+			op, ok := ops[x.Tok]
+			cur := in.expr(x.Lhs[0], fr)
+			if !ok || cur == nil || rhs == nil {
+				in.bad("assignment %s not evaluable", x.Tok)
+				return
+			}
+			v = constant.BinaryOp(constant.ToInt(cur), op, constant.ToInt(rhs))
+		} else {
+			v = rhs
+		}
+		if fr.isElem(x.Lhs[0]) {
+			if v == nil {
+				in.bad("value stored into the element is not computable from the element value")
+				return
+			}
+			fr.elem, fr.stored = c08byte(v), true
+			return
+		}
+		if id, ok := x.Lhs[0].(*ast.Ident); ok {
+			if v == nil {
+				delete(fr.vars, id.Name)
+				fr.vars["\x00unknown:"+id.Name] = constant.MakeBool(true)
+			} else {
+				fr.vars[id.Name] = v
+			}
+			return
+		}
+		// a store somewhere else (another slice, a field): not the element
+	case *ast.IncDecStmt:
+		if id, ok := x.X.(*ast.Ident); ok {
+			if cur, ok := fr.vars[id.Name]; ok {
+				d := int64(1)
+				if x.Tok == token.DEC {
+					d = -1
+				}
+				fr.vars[id.Name] = constant.BinaryOp(cur, token.ADD, constant.MakeInt64(d))
+			}
+		}
+	case *ast.ReturnStmt:
+		if len(x.Results) == 1 {
+			if fr.ret = in.expr(x.Results[0], fr); fr.ret == nil {
+				in.bad("return value %s not computable", nodeString(x.Results[0]))
+			}
+		} else if fr.loop == nil {
+			in.bad("helper does not return exactly one value")
+		}
+		fr.done = true
+	case *ast.BranchStmt:
+		if x.Tok == token.CONTINUE && x.Label == nil {
+			fr.done = true
+		} else if x.Tok == token.BREAK && x.Label == nil {
+			fr.done, fr.brk = true, true // leaves the enclosing switch (cleared there) or the loop (rejected by the caller)
+		} else {
+			in.bad("%s in the element loop is not followed", x.Tok)
+		}
+	default:
+		in.bad("statement %T in the element loop is not followed", st)
+	}
+}
+
+func c08byte(v constant.Value) constant.Value {
+	return constant.BinaryOp(constant.ToInt(v), token.AND, constant.MakeInt64(0xff))
+}
+
+var c08convs = map[string]int64{"byte": 0xff, "uint8": 0xff, "uint16": 0xffff, "uint32": 0xffffffff, "int": -1, "int32": -1, "int64": -1,
+	"uint": -1, "uint64": -1, "rune": -1}
+
+func (in *c08interp) expr(e ast.Expr, fr *c08frame) constant.Value {
+	switch x := e.(type) {
+	case *ast.BasicLit:
+		return constant.MakeFromLiteral(x.Value, x.Kind, 0)
+	case *ast.ParenExpr:
+		return in.expr(x.X, fr)
+	case *ast.Ident:
+		if v, ok := fr.vars[x.Name]; ok {
+			return v
+		}
+		if _, shadowed := fr.vars["\x00unknown:"+x.Name]; shadowed {
+			return nil
+		}
+		switch x.Name {
+		case "true":
+			return constant.MakeBool(true)
+		case "false":
+			return constant.MakeBool(false)
+		}
+		if fr.loop != nil && x.Name == fr.loop.key {
+			return fr.keyVal // the position: nil for substMap (the substitution must not depend on it)
+		}
+		if v, ok := in.consts[x.Name]; ok {
+			return v
+		}
+	case *ast.IndexExpr:
+		if fr.isElem(x) {
+			return fr.elem
+		}
+		// indexing a string constant (a translation table written as a const string)
+		if s := in.expr(x.X, fr); s != nil && s.Kind() == constant.String {
+			if i := in.expr(x.Index, fr); i != nil {
+				if k, ok := constant.Int64Val(constant.ToInt(i)); ok && k >= 0 && int(k) < len(constant.StringVal(s)) {
+					return constant.MakeInt64(int64(constant.StringVal(s)[k]))
+				}
+			}
+		}
+	case *ast.UnaryExpr:
+		v := in.expr(x.X, fr)
+		if v == nil {
+			return nil
+		}
+		if x.Op == token.NOT && v.Kind() == constant.Bool {
+			return constant.MakeBool(!constant.BoolVal(v))
+		}
+		if (x.Op == token.SUB || x.Op == token.ADD || x.Op == token.XOR) && v.Kind() == constant.Int {
+			return constant.UnaryOp(x.Op, v, 0)
+		}
+	case *ast.BinaryExpr:
+		a := in.expr(x.X, fr)
+		if a == nil {
+			return nil
+		}
+		if x.Op == token.LAND || x.Op == token.LOR {
+			if a.Kind() != constant.Bool {
+				return nil
+			}
+			if constant.BoolVal(a) == (x.Op == token.LOR) {
+				return a // short circuit
+			}
+			if b := in.expr(x.Y, fr); b != nil && b.Kind() == constant.Bool {
+				return b
+			}
+			return nil
+		}
+		b := in.expr(x.Y, fr)
+		if b == nil {
+			return nil
+		}
+		switch x.Op {
+		case token.EQL, token.NEQ, token.LSS, token.LEQ, token.GTR, token.GEQ:
+			if a.Kind() == constant.Bool || b.Kind() == constant.Bool || a.Kind() == constant.String || b.Kind() == constant.String {
+				if a.Kind() != b.Kind() || (a.Kind() == constant.Bool && x.Op != token.EQL && x.Op != token.NEQ) {
+					return nil
+				}
+			}
+			return constant.MakeBool(constant.Compare(a, x.Op, b))
+		case token.SHL, token.SHR:
+			if s, ok := constant.Uint64Val(constant.ToInt(b)); ok && s < 64 && a.Kind() == constant.Int {
+				return constant.Shift(a, x.Op, uint(s))
+			}
+			return nil
+		case token.ADD, token.SUB, token.MUL, token.AND, token.OR, token.XOR, token.AND_NOT:
+			if a.Kind() == constant.Int && b.Kind() == constant.Int {
+				return constant.BinaryOp(a, x.Op, b)
+			}
+		case token.QUO, token.REM:
+			if a.Kind() == constant.Int && b.Kind() == constant.Int && constant.Sign(b) != 0 {
+				op := x.Op
+				if op == token.QUO {
+					op = token.QUO_ASSIGN // integer division
+				}
+				return constant.BinaryOp(a, op, b)
+			}
+		}
+	case *ast.CallExpr:
+		if id, ok := x.Fun.(*ast.Ident); ok && len(x.Args) == 1 {
+			if mask, ok := c08convs[id.Name]; ok && in.helper(x.Fun) == nil {
+				v := in.expr(x.Args[0], fr)
+				if v == nil || v.Kind() != constant.Int {
+					return nil
+				}
+				if mask > 0 {
+					return constant.BinaryOp(v, token.AND, constant.MakeInt64(mask))
+				}
+				return v
+			}
+		}
+		h := in.helper(x.Fun)
+		if h == nil || h.Type.Params == nil || in.depth >= 4 {
+			return nil
+		}
+		var names []string
+		for _, p := range h.Type.Params.List {
+			for _, n := range p.Names {
+				names = append(names, n.Name)
+			}
+		}
+		if len(names) != len(x.Args) {
+			return nil
+		}
+		callee := &c08frame{vars: env{}}
+		for i, a := range x.Args {
+			v := in.expr(a, fr)
+			if v == nil {
+				return nil
+			}
+			callee.vars[names[i]] = v
+		}
+		in.depth++
+		in.block(h.Body.List, callee)
+		in.depth--
+		if in.err != "" || !callee.done {
+			return nil
+		}
+		return callee.ret
+	}
+	return nil
 }
 
 func leanPairs(p [][2]int64) string {
